@@ -21,6 +21,10 @@ func main() {
 		checks.ChildMain(os.Args[2], os.Args[3])
 		return
 	}
+	if len(os.Args) >= 4 && os.Args[1] == "bench" {
+		checks.Bench(os.Args[2], os.Args[3])
+		return
+	}
 	if len(os.Args) >= 2 && os.Args[1] == "worker" {
 		checks.WorkerMain()
 		return
